@@ -3,7 +3,7 @@ CONSTANTS
     EpochOrderStrict = FALSE
     CacheSound = FALSE
     MaxAlter = 1
-    TamperFields = {"prev", "epoch", "avk", "params", "msgEpoch", "nextAvk", "nextParams", "signedMsg", "sig", "kind", "genSig"}
+    TamperFields = {"resign", "prev", "epoch", "avk", "params", "msgEpoch", "nextAvk", "nextParams", "signedMsg", "sig", "kind", "genSig"}
     ForgeEpochs = {1, 2, 3, 4, 5}
     Forge2Pars = {"q"}
     ForgeKeys = {"H2", "H3", "H4", "H5", "A"}
